@@ -200,7 +200,15 @@ static Outcome runCase(const KV& c)
         return o;
     }
     Vector<double> x = advVector(g, xk, c.getU("x_seed"), invApply);
+    // y in its own units: <Ax,y> = <x,Ay> is bilinear, nothing ties the two magnitudes together
+    const int xexp = vectorScaleExp();
+    if (c.has("y_scale_exp")) {
+        vectorScaleExp() = (int)c.getI("y_scale_exp");
+        if (vectorScaleExp() != xexp)
+            o.cls("y_scaled_differently_from_x");
+    }
     Vector<double> y = advVector(g, yk, c.getU("y_seed"), invApply);
+    vectorScaleExp() = xexp;
     zeroDirichlet(x);
     zeroDirichlet(y);
     double xn = 0;
@@ -213,12 +221,15 @@ static Outcome runCase(const KV& c)
     Vector<double> zero(n);
     for (int i = 0; i < n; i++)
         zero[i] = 0.0;
-    const char* names[3] = {"give(cached)", "give(uncached)", "take"};
-    for (int impl = 0; impl < 3; impl++) {
+    const char* names[5] = {"give(cached)", "give(uncached)", "take", "take via Level", "give via Level"};
+    // with via_level also through Level::computeResidual, the route the cycles and the stop test use, on a Level object first
+    // initialised for the other boundary mode
+    const int nimpl = c.getI("via_level", 0) ? 5 : 3;
+    for (int impl = 0; impl < nimpl; impl++) {
         Vector<double> rx(n), ry(n);
         // F15 (see C03): parallel give with an empty circle section and across-origin closure is excluded
         int thr = threads;
-        if (impl < 2 && threads > 1 && !p.dirbc && g.numberSmootherCircles() == 0) {
+        if ((impl < 2 || impl == 4) && threads > 1 && !p.dirbc && g.numberSmootherCircles() == 0) {
             thr = 1;
             o.cnt("excluded_known_F15");
         }
@@ -232,10 +243,19 @@ static Outcome runCase(const KV& c)
             op.computeResidual(rx, zero, x);
             op.computeResidual(ry, zero, y);
         }
-        else {
+        else if (impl == 2) {
             ResidualTake op(g, H.levels[0]->levelCache(), *H.geometry, *H.coefficients, p.dirbc, threads);
             op.computeResidual(rx, zero, x);
             op.computeResidual(ry, zero, y);
+        }
+        else {
+            Level& L          = *H.levels[0];
+            const auto method = impl == 3 ? StencilDistributionMethod::CPU_TAKE : StencilDistributionMethod::CPU_GIVE;
+            L.initializeResidual(*H.geometry, *H.coefficients, !p.dirbc, 1, method);
+            L.initializeResidual(*H.geometry, *H.coefficients, p.dirbc, impl == 3 ? threads : thr, method);
+            L.computeResidual(rx, zero, x);
+            L.computeResidual(ry, zero, y);
+            o.cls("via_level_reinitialised");
         }
         LD axy = 0, xay = 0, axx = 0, bound = 0, boundxx = 0;
         for (int i = 0; i < nr; i++) {
@@ -393,6 +413,9 @@ static KV genCase()
     c.putI("x_kind", kind());
     c.putU("x_seed", rseed());
     c.putI("vec_scale_exp", rpick({0, 0, 0, 0, 0, 0, -300, -100, 100, 300}));
+    if (rint(0, 3) == 0)
+        c.putI("y_scale_exp", rpick({0, -45, -60, -200, 40, 200}));
+    c.putI("via_level", rweighted({3, 1}));
     c.putI("y_kind", kind());
     c.putU("y_seed", rseed());
     c.putI("probe", (p.nr() * p.ntheta() <= 400 && (lines || rint(0, 3) == 0)) ? 1 : 0);
